@@ -14,7 +14,8 @@
 EXTENDS Integers, Sequences, FiniteSets, TLC
 
 CONSTANTS Threads, Script, InitEv, MaxTime, Inf, RaisingActs,
-          FixLock, FixInit, FixIsSet, Locked
+          FixLock, FixInit, FixIsSet, Locked,
+          DetTime      \* TRUE: the clock only goes on when no thread can run (as under harness/detsched.py); FALSE: any time
 
 None == "none"
 Unset == -1
@@ -247,6 +248,7 @@ I50(th) == /\ pc[th] = "i50"
 (* a blocked waiter whose time-out is due or that was notified runs before the clock goes on *)
 Tick == /\ now < MaxTime /\ now' = now + 1
         /\ \A th \in Threads : ~Wakeable(th) /\ ~(pc[th] = "sleep" /\ now >= loc[th].until)
+        /\ DetTime => \A th \in Threads : pc[th] \in {"done", "w_blk", "sleep"}
         /\ UNCHANGED <<pc, ip, loc>> /\ Keep(obj) /\ ResKeep /\ GhostKeep
 
 (* ------------------------------------------------------------------ ghosts *)
